@@ -129,6 +129,16 @@ Section Gate.
              end
     end.
   Definition merge : pset -> pset -> outcome pset := merge_with cur_tables.
+
+  (* any order and grouping of merges of a family: a binary tree whose leaves are the members *)
+  Inductive mtree := MLeaf (p : pset) | MNode (l r : mtree).
+  Fixpoint leaves (t : mtree) : list pset := match t with MLeaf p => [p] | MNode l r => leaves l ++ leaves r end.
+  Fixpoint eval_tree_with (T : tables) (t : mtree) : outcome pset :=
+    match t with
+    | MLeaf p => Val p
+    | MNode l r => obind (eval_tree_with T l) (fun a => obind (eval_tree_with T r) (fun b => merge_with T a b))
+    end.
+  Definition eval_tree : mtree -> outcome pset := eval_tree_with cur_tables.
 End Gate.
 
 (* ---- table-derived classes *)
